@@ -82,7 +82,7 @@ Proof.
     split; constructor.
   - cbn [seq mfold].
     destruct (@chain_iter_step_ext T K p meth ltb_irrefl ltb_trans ltb_negtrans reducible n0 s d M L i HI ltac:(lia))
-      as (s1 & d1 & M1 & a & b & v & sz & Hstep & Ha & Hb & Hab & Hsteps & HI1 & Hmf).
+      as (s1 & d1 & M1 & a & b & v & sz & Hstep & Ha & Hb & Hab & Hsteps & HI1 & Hmf & _).
     rewrite Hstep. cbn [bind].
     destruct (lw_step HW Hmf Ha Hb Hab) as [Hc HW1].
     pose proof HI as (_ & _ & _ & _ & Hnd & _).
